@@ -456,10 +456,30 @@ async fn run_case(ctx: &Ctx, chain: &ShardChain, case: u64) -> Outcome {
         }),
     ));
     let l2 = log.clone();
+    // In some cases the node is stopped in the middle of the pruner's work: `Pruner::stop()` is called
+    // synchronously from inside the k-th blockstore removal the pruner performs, i.e. between two CID
+    // removals of one block or between blocks. A header must still never be removed before all its CIDs.
+    let stop_at_remove: Option<u64> = if case % 6 == 4 { Some(1 + (case / 6) % 37) } else { None };
+    let pruner_cell: Arc<std::sync::OnceLock<Arc<VPruner>>> = Arc::new(std::sync::OnceLock::new());
+    let (cell2, removes_by_pruner) = (pruner_cell.clone(), Arc::new(AtomicU64::new(0)));
+    let stopped_mid_work = Arc::new(AtomicU64::new(0));
+    let stopped2 = stopped_mid_work.clone();
     let blocks = Arc::new(LoggedBlockstore::new(
         InMemoryBlockstore::new(),
         clock.clone(),
-        Arc::new(move |ev: BlockstoreEvent| l2.push(Ev::Block { harness: by_harness(), ev })),
+        Arc::new(move |ev: BlockstoreEvent| {
+            let harness = by_harness();
+            if !harness && matches!(ev, BlockstoreEvent::Remove { .. }) {
+                let n = removes_by_pruner.fetch_add(1, Ordering::SeqCst) + 1;
+                if Some(n) == stop_at_remove {
+                    if let Some(p) = cell2.get() {
+                        p.stop();
+                        stopped2.store(1, Ordering::SeqCst);
+                    }
+                }
+            }
+            l2.push(Ev::Block { harness, ev })
+        }),
     ));
 
     let mut run = Run {
@@ -485,7 +505,8 @@ async fn run_case(ctx: &Ctx, chain: &ShardChain, case: u64) -> Outcome {
     let mut subscriber = events.subscribe();
     let (daser, mut handle) = VDaser::mocked();
     let _ = vcore::take_last_panic();
-    let pruner = VPruner::start(&daser, store.clone(), blocks.clone(), &events, block_time, pruning_window, sampling_window);
+    let pruner = Arc::new(VPruner::start(&daser, store.clone(), blocks.clone(), &events, block_time, pruning_window, sampling_window));
+    let _ = pruner_cell.set(pruner.clone());
 
     let refresh_possible = block_time < Duration::from_secs(1);
     let mut rounds_left = run.rng.gen_range(0..5);
@@ -532,6 +553,9 @@ async fn run_case(ctx: &Ctx, chain: &ShardChain, case: u64) -> Outcome {
         }
     }
     pruner.stop();
+    if stopped_mid_work.load(Ordering::SeqCst) == 1 {
+        ctx.count("cases_pruner_stopped_inside_a_blockstore_removal");
+    }
     for _ in 0..10_000u32 {
         tokio::select! {
             biased;
@@ -824,6 +848,9 @@ fn judge(ctx: &Ctx, out: &Outcome) -> Result<(), String> {
 }
 
 pub fn run(ctx: &Ctx) {
+    // The Daser side of "never removes a header whose sampling is in progress": the real Daser must
+    // not grant such a block to the pruner (real Daser, harness as pruner; see c34.rs).
+    crate::c34::daser_grant_scan(ctx);
     ctx.rule(
         "Case = a slice (8..140, 7 % of the cases 560..1150 heights) of one honest chain per shard (headers 2-7 h apart) stored \
          with runs, unsynced gaps and heights pruned earlier; random sampled sets, sampling metadata with 1-3 sample \
@@ -915,6 +942,7 @@ pub fn run(ctx: &Ctx) {
         ctx.floor("removed_inside_sampling_window_sampled_inner", 2_000);
         ctx.floor("removed_heights_with_cids", 2_000);
         ctx.floor("want_to_prune_granted", 2_000);
+        ctx.floor("cases_pruner_stopped_inside_a_blockstore_removal", ctx.scale(60, 900));
         ctx.floor("want_to_prune_refused", 500);
         ctx.floor("kept_sampling_in_progress", 200);
         ctx.floor("kept_sampled_gap_border_inside_sampling_window", 200);
